@@ -308,7 +308,32 @@ def check_index(ctx, case):
     exp = None
     req = None
     try:
-        if m == 'roll':
+        if m == 'ctor':
+            # the documented array forms of the constructor: an N x N array of single-valued correlators (a timeslice is defined only
+            # where every entry is), a (T, N, N) array of observables, a 1-d array of observables
+            holes = [tuple(h) for h in args.get('holes', [])]
+            if args['form'] == 'corr2d':
+                singles = np.empty((N, N), dtype=object)
+                for i in range(N):
+                    for j in range(N):
+                        singles[i, j] = pe.Corr([None if (a.content[t] is None or (i, j, t) in holes) else a.content[t][i, j] for t in range(T)])
+                exp = [None if (a.content[t] is None or any(h[2] == t for h in holes)) else a.content[t] for t in range(T)]
+                res = pe.Corr(singles)
+            elif args['form'] == 'array3d':
+                full = [t for t in range(T) if a.content[t] is not None]
+                exp = [a.content[t] for t in full]
+                res = pe.Corr(np.array([a.content[t] for t in full], dtype=object))
+            else:
+                full = [t for t in range(T) if a.content[t] is not None]
+                exp = [np.asarray([a.content[t][0, 0]]) for t in full]
+                res = pe.Corr(np.array([a.content[t][0, 0] for t in full], dtype=object))
+            if res.T != len(exp):
+                probs.append(('violation', 'index-entry-ctor', 'T %d vs %d' % (res.T, len(exp))))
+                return probs
+            a = res                      # (compared below against `exp`; the operand of this "method" is the array)
+            sa = snap_obs(a)
+            T = res.T
+        elif m == 'roll':
             res = a.roll(args['dt'])
             exp = [a.content[(t - args['dt']) % T] for t in range(T)]
             req = {'method': 'roll', 'dt': args['dt']}
@@ -529,8 +554,8 @@ def gen_case(ctx):
         if f == 'arccosh':
             lo, hi = (0.6, 2.5)
         return {'kind': 'func', 'a': gen_corr(rng, lo=lo, hi=hi), 'f': f}
-    m = rng.choice(['roll', 'reverse', 'thin', 'symmetric', 'anti_symmetric', 'T_symmetry', 'item', 'trace', 'matrix_symmetric', 'projected', 'hankel', 'hankel', 'repr'])
-    if m in ('item', 'trace', 'matrix_symmetric', 'projected'):
+    m = rng.choice(['roll', 'reverse', 'thin', 'symmetric', 'anti_symmetric', 'T_symmetry', 'item', 'trace', 'matrix_symmetric', 'projected', 'hankel', 'hankel', 'repr', 'ctor'])
+    if m in ('item', 'trace', 'matrix_symmetric', 'projected', 'ctor'):
         a = gen_corr(rng, N=rng.choice([2, 3]))
     elif m in ('symmetric', 'anti_symmetric', 'T_symmetry', 'hankel', 'repr'):
         a = gen_corr(rng, N=1, T=rng.choice([2, 4, 6, 8, 10, 12, 16, 5, 7]))
@@ -564,6 +589,9 @@ def gen_case(ctx):
                 if sp['form'] == 'list' and rng.random() < 0.4:
                     sp['vs'][rng.randrange(T)] = None
         case['args'] = {'L': L, 'R': R, 'normalize': normalize}
+    elif m == 'ctor':
+        case['args'] = {'form': rng.choice(['corr2d', 'corr2d', 'array3d', 'array1d']),
+                        'holes': [[rng.randrange(N), rng.randrange(N), rng.randrange(T)] for _ in range(rng.choice([0, 0, 1, 2]))]}
     elif m == 'hankel':
         case['args'] = {'n': rng.choice([1, 2, 3]), 'periodic': rng.random() < 0.5, 'flag_form': rng.choice([None, 'np', 'int', 'np', 'int'])}
     elif m == 'repr':
